@@ -662,7 +662,7 @@ func gen(rng *h.Rng, tier string, emit func(string)) {
 		}
 
 		// (b) bit flips
-		for i := 0; i < 150*scale; i++ {
+		for i := 0; i < 400*scale; i++ {
 			c := append([]byte{}, b.code...)
 			for k := 1 + rng.Intn(3); k > 0; k-- {
 				c[rng.Intn(len(c))] ^= 1 << uint(rng.Intn(8))
@@ -750,7 +750,7 @@ func gen(rng *h.Rng, tier string, emit func(string)) {
 	}
 
 	// (f) random bytes
-	for i := 0; i < 3000*scale; i++ {
+	for i := 0; i < 8000*scale; i++ {
 		c := rng.Bytes(rng.Intn(40))
 		if len(c) > 2 && rng.Bool() {
 			c[0] = byte(rng.Intn(4)) // a small table so that the rest is looked at
@@ -762,7 +762,7 @@ func gen(rng *h.Rng, tier string, emit func(string)) {
 			inner("random", c)
 		}
 	}
-	for i := 0; i < 1500*scale; i++ {
+	for i := 0; i < 4000*scale; i++ {
 		p := rng.Bytes(rng.Intn(60))
 		if len(p) > 11 && rng.Chance(3, 4) { // plausible header
 			copy(p, le(uint64(rng.Intn(12)), 3))
@@ -776,16 +776,22 @@ func gen(rng *h.Rng, tier string, emit func(string)) {
 	// (j,k) the large declared sizes, a few of each (each costs up to some hundred MiB)
 	b0 := bs[0]
 	_, o, w, _, _, _ := PVM.DecodeSerializedValues(b0.std)
-	for _, zv := range []uint16{255, 4096, 65535} {
+	bigz := []uint16{255, 4096}
+	bigarg := []int{zi, zi + 1, zi + zz - zp + 1}
+	if tier == "thorough" {
+		bigz = append(bigz, 20000, 65535)
+		bigarg = append(bigarg, zi-1, zi+zz-zp, zi+zz-1, zi+zz, zi+zz+1)
+		put("big-z", fmt.Sprintf("psim %s 0 100", h.Hex(standard(o, w, 20000, 4096, b0.code))))
+		put("big-arg", fmt.Sprintf("psim %s %d 100", h.Hex(b0.std), zi))
+	}
+	for _, zv := range bigz {
 		put("big-z", fmt.Sprintf("init %s 0 0", h.Hex(standard(o, w, zv, 4096, b0.code))))
 	}
-	put("big-z", fmt.Sprintf("psim %s 0 100", h.Hex(standard(o, w, 20000, 4096, b0.code))))
 	put("big-s", fmt.Sprintf("init %s 0 0", h.Hex(standard(o, w, 1, 1<<24-1, b0.code))))
 	put("big-s", fmt.Sprintf("psim %s 5 100", h.Hex(standard(o, w, 1, 1<<24-1, b0.code))))
-	for _, al := range []int{zi - 1, zi, zi + 1, zi + zz - zp, zi + zz - zp + 1, zi + zz - 1, zi + zz, zi + zz + 1} {
+	for _, al := range bigarg {
 		put("big-arg", fmt.Sprintf("init %s %d 0", h.Hex(b0.std), al))
 	}
-	put("big-arg", fmt.Sprintf("psim %s %d 100", h.Hex(b0.std), zi))
 	put("big-arg", fmt.Sprintf("psim %s %d 100", h.Hex(b0.std), zi+zz-zp+1))
 
 	h.EmitStats(emit, st)
@@ -793,6 +799,7 @@ func gen(rng *h.Rng, tier string, emit func(string)) {
 
 func main() {
 	debug.SetMemoryLimit(3 << 30)
+	runtime.GOMAXPROCS(1) // one P: ReadMemStats is cheap and nothing else allocates while a case is measured
 	if len(os.Args) >= 2 && os.Args[1] == "run" {
 		// own loop (not verifh.Main): results are flushed so that an abort keeps what was done
 		// the repository's logger prints to stdout: keep the protocol on the original stdout and
